@@ -5,6 +5,9 @@ INVARIANT Partition
 INVARIANT Blocks
 INVARIANT RoundTrip
 INVARIANT Gate
+INVARIANT Kept
+INVARIANT LazyUnobservable
+INVARIANT Untouched
 VIEW View
 CHECK_DEADLOCK FALSE
 CONSTANTS
@@ -18,3 +21,5 @@ CONSTANTS
   MaxRes = 2
   Access = FALSE
   Fills = {"l0"}
+  History = FALSE
+  MaxOps = 0
